@@ -59,8 +59,10 @@ def gen_history(rng, length, readonly_safe=False, valkeys=None, funcs=3):
         r = rng.random()
         if r < 0.30:
             ops.append(["memoize", f, a, rng.choice(vk), rng.choice(OVERRIDES)])
-        elif r < 0.42:
+        elif r < 0.39:
             ops.append(["read", f, a])
+        elif r < 0.42:
+            ops.append(["readheld", f, a])  # read through the memento object handed to the last memoize of this call
         elif r < 0.47:
             ops.append(["get", f, a])
         elif r < 0.50:
@@ -110,7 +112,7 @@ class Model:
             old = self.d.get((f, a))
             self.d[(f, a)] = {"v": vk, "meta": dict(old["meta"]) if old else {}, "ovr": ovr}
             return None
-        if k == "read":
+        if k in ("read", "readheld"):
             e = self.d.get((op[1], op[2]))
             return ("value", e["v"]) if e else "absent"
         if k == "get":
@@ -165,6 +167,7 @@ class Refs:
                     for r in self.refs]
         self.ah = [[w.arg_hash for w in row] for row in self.fwa]
         self.ah_index = [{h: i for i, h in enumerate(row)} for row in self.ah]
+        self.held = {}  # (backend id, f, a) -> memento object handed to the last memoize
 
     def memento(self, f, a, value):
         from twosigma.memento.metadata import Memento, InvocationMetadata, ResultType
@@ -190,8 +193,16 @@ def apply_backend(backend, refs, vals, op, model_before=None):
         if k == "memoize":
             _, f, a, vk, ovr = op
             v = val(vals, vk)
-            backend.memoize(ovr, refs.memento(f, a, v), v)
+            m = refs.memento(f, a, v)
+            backend.memoize(ovr, m, v)
+            refs.held[(id(backend), f, a)] = m
             return None
+        if k == "readheld":
+            m = refs.held.get((id(backend), op[1], op[2]))
+            if m is None or (model_before is not None and (op[1], op[2]) not in model_before):
+                return "absent" if (model_before is None or (op[1], op[2]) not in model_before) else ("value", backend.read_result(
+                    backend.get_memento(refs.fwah(op[1], op[2]))))
+            return ("value", backend.read_result(m))
         if k in ("read", "get"):
             m = backend.get_memento(refs.fwah(op[1], op[2]))
             if m is None:
@@ -250,7 +261,7 @@ def answers_agree(op, expected, got, refs, vals):
     k = op[0]
     if isinstance(got, tuple) and got and got[0] == "raise":
         return False
-    if k == "read":
+    if k in ("read", "readheld"):
         if expected == "absent" or got == "absent":
             return expected == got
         return domain.eq(val(vals, expected[1]), got[1])
